@@ -18,21 +18,27 @@ def encode(obj):
     return json.dumps(preprocess(encoded))
 
 
-def decode(cache, records_per_chunk):
+def decode(cache, records_per_chunk, fs=None):
     partially_decoded = json.loads(cache, object_hook=postprocess)
 
-    return decode_hierarchy(partially_decoded, records_per_chunk=records_per_chunk)
+    return decode_hierarchy(partially_decoded, records_per_chunk=records_per_chunk, fs=fs)
 
 
 def read_cache(mapper, path, records_per_chunk):
     remote = remote_cache_location(mapper.root, path)
     local = local_cache_location(mapper.root, path)
 
+    from fsspec.implementations.dirfs import DirFileSystem
+
+    # the cache only stores a bare root path: read the image data from the
+    # filesystem the dataset is opened from
+    fs = DirFileSystem(path=mapper.root, fs=mapper.fs)
+
     if local.is_file():
-        return decode(local.read_text(), records_per_chunk=records_per_chunk)
+        return decode(local.read_text(), records_per_chunk=records_per_chunk, fs=fs)
 
     if remote in mapper:
-        return decode(mapper[remote].decode(), records_per_chunk=records_per_chunk)
+        return decode(mapper[remote].decode(), records_per_chunk=records_per_chunk, fs=fs)
 
     raise CachingError(f"no cache found for {path}")
 
